@@ -5,6 +5,8 @@ import json, os, random, shutil
 import vlib, runscen, gen_config as G
 
 CMDS = ["build", "test", "lint"]
+# sequence names deliberately not in alphabetical order of their position in typical invocations
+SEQS = {"zz_prep": ["lint"], "main": ["build"], "aa_post": ["test"]}
 STATUS = {"success": 0, "error": 1, "undefined": 2, "not_executable": 3, "skipped": 4}
 
 def gen_dag_config(rng, n=None):
@@ -17,7 +19,7 @@ def gen_dag_config(rng, n=None):
         if rng.random() < 0.5: targets.append({"path": "tool"})
         if rng.random() < 0.5: targets.append({"path": "base/gen", "uses": []})
         rng.shuffle(targets)
-        return {"targets": targets, "sequences": {"ci": ["build", "test"], "all": ["lint", "build"]}}
+        return {"targets": targets, "sequences": SEQS}
     n = n or rng.randint(2, 7)
     names = []
     for i in range(n):
@@ -37,7 +39,7 @@ def gen_dag_config(rng, n=None):
         if pref and rng.random() < 0.7: t["uses"] = sorted(set(t.get("uses", []) + [rng.choice(pref)]))
         targets.append(t)
     rng.shuffle(targets)
-    return {"targets": targets, "sequences": {"ci": ["build", "test"], "all": ["lint", "build"]}}
+    return {"targets": targets, "sequences": SEQS}
 
 def depth_map(groups):
     return {t: gi for gi, g in enumerate(groups) for t in g}
@@ -46,8 +48,8 @@ def run_case(ctx, rng, focus, forced=None):
     cfg = forced["cfg"] if forced else gen_dag_config(rng)
     paths = [t["path"] for t in cfg["targets"]]
     # invocation
-    use_seq = rng.random() < 0.3
-    seqs = [rng.choice(["ci", "all"])] if use_seq else []
+    use_seq = rng.random() < (0.6 if focus == "C04" else 0.3)
+    seqs = rng.sample(list(SEQS), rng.randint(1, 3)) if use_seq else []
     cmds = rng.sample(CMDS, rng.randint(0 if use_seq else 1, 2))
     expected_cmds = sum((cfg["sequences"][s] for s in seqs), []) + cmds
     if len(set(expected_cmds)) != len(expected_cmds):      # duplicate commands are outside the properties' wording
@@ -61,7 +63,7 @@ def run_case(ctx, rng, focus, forced=None):
     for c in CMDS:
         for p in paths:
             r = rng.random()
-            kinds[(c, p)] = "undef" if r < 0.1 else "noexec" if r < 0.15 else "exec"
+            kinds[(c, p)] = "undef" if r < 0.1 else "noexec" if r < 0.13 else "noexec_link" if r < 0.16 else "exec"
     rr = runscen.RunRepo(ctx, cfg, kinds=kinds, commands=CMDS)
     try:
         args = []
@@ -148,7 +150,7 @@ def evaluate(ctx, focus, case, cfg, rr, rc, out, err, traces, expected_cmds, sel
             members = sorted(g.keys(), key=lambda t: (order_in.get(t, 0), t))
             defs = []
             for ki, t in enumerate(members):
-                defs.append({"exec": 0, "undef": 1, "noexec": 2}[kinds.get((cmd, t), "exec")])
+                defs.append({"exec": 0, "undef": 1, "noexec": 2, "noexec_link": 2}[kinds.get((cmd, t), "exec")])
                 task_of[(cmd, t)] = (ci, gi, ki)
                 st, code = g[t]
                 impl_res.append([[ci, gi, ki], [STATUS.get(st, 9), [] if code is None else [code]]])
@@ -214,6 +216,7 @@ def evaluate(ctx, focus, case, cfg, rr, rc, out, err, traces, expected_cmds, sel
             if n > 1: problems.append({"started_more_than_once": [c, t, n]})
             if k == "undef" and n != 0: problems.append({"undefined_started": [c, t]})
             if k == "exec" and st != "skipped" and n != 1: problems.append({"defined_not_started": [c, t, st, n]})
+            if k in ("noexec", "noexec_link") and n != 0: problems.append({"not_executable_started": [c, t, k]})
             if st == "skipped" and n != 0: problems.append({"skipped_started": [c, t]})
         extra = [k for k in started if k not in task_of]
         if extra: problems.append({"started_outside_plan": extra[:5]})
